@@ -198,6 +198,57 @@ func runPVRepo(c *core.Ctx) {
 			return true, "routed"
 		}
 		o := an.Origin(v)
+		// a field of a small request record passed as a parameter (bm.from): what every caller stores in that field
+		if base := fieldBase(o); base != o {
+			if sp, isParam := an.Origin(base).(*ssa.Parameter); isParam {
+				if stt, isStruct := sp.Type().Underlying().(*types.Struct); isStruct {
+					fname := ""
+					switch y := an.Strip(o).(type) {
+					case *ssa.Field:
+						fname = stt.Field(y.Field).Name()
+					case *ssa.UnOp:
+						if fa, ok := y.X.(*ssa.FieldAddr); ok {
+							fname = stt.Field(fa.Field).Name()
+						}
+					}
+					fn := sp.Parent()
+					pi := -1
+					for i, p := range fn.Params {
+						if p == sp {
+							pi = i
+						}
+					}
+					sites := c.P.Callers(fn)
+					if fname != "" && pi >= 0 && len(sites) > 0 {
+						for _, s := range sites {
+							if !c.P.InModule(s.Parent()) {
+								continue
+							}
+							args := s.Common().Args
+							if pi >= len(args) {
+								return false, "argument not found at " + c.P.Pos(s.Pos())
+							}
+							ss := structStores(an.Origin(args[pi]))
+							if len(ss) == 0 {
+								if u, ok := an.Strip(args[pi]).(*ssa.UnOp); ok {
+									ss = structStores(u.X)
+								}
+							}
+							vals := ss[fname]
+							if len(vals) == 0 {
+								return false, fmt.Sprintf("field %s of the record passed at %s could not be traced", fname, c.P.Pos(s.Pos()))
+							}
+							for _, fv := range vals {
+								if ok, why := trace(fv, s.Block(), depth+1); !ok {
+									return false, why
+								}
+							}
+						}
+						return true, "all call sites pass a record with a checked name"
+					}
+				}
+			}
+		}
 		switch x := o.(type) {
 		case *ssa.Parameter:
 			fn := x.Parent()
